@@ -164,6 +164,7 @@ def main():
     ap.add_argument("--replay")
     ap.add_argument("--update-expected", action="store_true")
     ap.add_argument("--skip-proof", action="store_true")
+    ap.add_argument("--no-evidence", action="store_true", help="development runs (tools/coverage.py): leave evidence/<id>.json alone")
     a = ap.parse_args()
     pid, tier = a.pid, a.tier
     seed = int(os.environ.get("VERIF_SEED", "1"))
@@ -254,7 +255,8 @@ def main():
     ev = {"property_id": pid, "tier": tier if tier in ("quick", "thorough") else "quick", "seed": seed,
           "level": getattr(mod, "LEVEL", "proof"), "coverage": coverage,
           "assumptions": list(getattr(mod, "ASSUMPTIONS", [])), "wall_s": round(time.time() - t0, 1), "violations": n_new + (1 if (broken and n_new == 0) else 0)}
-    json.dump(ev, open(os.path.join(VERIF, "evidence", pid + ".json"), "w"), indent=1, default=str)
+    if not a.no_evidence:
+        json.dump(ev, open(os.path.join(VERIF, "evidence", pid + ".json"), "w"), indent=1, default=str)
     print("%s: proof %d/%d, correspondence %s, oracle %s, %s (%.0fs)" % (
         pid, proof["discharged"], proof["obligations"], json.dumps({k: v for k, v in cov.get("correspondence", {}).items() if k in ("cases", "mismatches", "bit_identical_share")}),
         json.dumps({k: v for k, v in cov.get("oracle", {}).items() if k in ("cases", "violations")}), "OK" if exit_code == 0 else "FAILED", time.time() - t0))
